@@ -11,7 +11,7 @@
    (an edge while the sampler runs restarts the count); `rst c = false`: the code as it was. *)
 From Coq Require Import List ZArith Bool Lia.
 Import ListNotations.
-From V Require Import Base.U32 Gen.InputConsts C11.Model C11.Proofs C11.Machine.
+From V Require Import Base.U32 Gen.InputConsts C11.Model C11.Proofs C11.Machine C11.Gesture.
 Local Open Scope Z_scope.
 
 (* ---- glitches are ignored (repaired code, literal strength) ----
@@ -156,3 +156,90 @@ Example C11_nonvacuous :
   late g = 0 /\ chg (outs g) = 0%nat /\ now g = 799000.
 Proof. vm_compute. repeat split; reflexivity. Qed.
 Print Assumptions C11_nonvacuous.
+
+(* ---- action-trigger mode: one gesture, at most one click-count trigger ----
+   Monostable button (not the configuration button), at rest in action-trigger mode with active triggers A,
+   highest enabled multiplicity M >= 2 (max_clicks as set by supla_esp_input_set_active_triggers).  The schedule `ms`
+   (no trigger re-configuration inside) is a gesture of N = 1 + |cl| clicks: its notifies alternate press / release
+   (`gtrace`), everything between them is idle (time, sampler ticks that do not notify, button-timer callbacks);
+   `gok`: the first press is shorter than HOLD_US, each release -> next press gap (between the notifies) is shorter than
+   MULTICLICK_US (and longer than a timer period + J), and the last release is followed by MULTICLICK_US + CYCLE_US + J of
+   silence; no timer more than J late.  Then (`verdict`) the machine is at rest again and the click-count / hold
+   triggers sent during the gesture are exactly
+     - PRESS_x M once                      if N >= M (sent right after the M-th release; later clicks are ignored),
+     - nothing, one local relay action     if N = 1 and the relay is still wired to the input (x1 not enabled),
+     - PRESS_x N once (if enabled in A)    otherwise;
+   and no local relay action happens in the first and third case (`loc` unchanged).
+   `xt t k` is [] when PRESS_xk is not enabled or the input has no channel.
+   The long press is C11_at_hold below.
+   Not covered by a theorem (property partial here): bistable / motion inputs, M <= 1
+   (there the code reports every click on its own at once, pinned by the repo test BistableTurnOnOffAndTogglex1),
+   the configuration button.  The correspondence check and the monitor cover them on generated gestures. *)
+Theorem C11_at_single_trigger : forall c A M g rl J ms s x cl nw ls si td ta ou,
+  is_mono c = true -> cfg_btn c = false -> A <> 0 -> 2 <= M -> CYCLE_US + J < MULTICLICK_US ->
+  forallb (fun m => negb (is_trig m)) ms = true ->
+  view s = mkmv nw ST_INACTIVE 0 M A g ls si false td ta rl false ou ->
+  asilent_ret c (view s) = false ->
+  atrace c ms s = gtrace (x :: cl) -> Z.of_nat (length (x :: cl)) < 99 ->
+  gok c J true (view s) (x :: cl) ->
+  pend s <= J -> late (mrun c ms s) <= J -> now (mrun c ms s) - now s < TWO32 ->
+  verdict c A M g (Z.of_nat (length (x :: cl))) (filter famo (outs s)) (filter isloc (outs s)) (view (mrun c ms s)).
+Proof. exact at_single_trigger_thm. Qed.
+Print Assumptions C11_at_single_trigger.
+
+(* the long press: pressed from rest for at least HOLD_US + CYCLE_US + J, released, then silence: the machine is at rest
+   again and the only click-count / hold trigger of the gesture is HOLD (`ht t` = [] when HOLD is not enabled or the
+   input has no channel); no local relay action *)
+Theorem C11_at_hold : forall c A M g rl J ms s iPl iRl nw ls si td ta ou,
+  is_mono c = true -> cfg_btn c = false -> A <> 0 -> 2 <= M -> 0 <= J -> CYCLE_US + J < MULTICLICK_US ->
+  forallb (fun m => negb (is_trig m)) ms = true ->
+  view s = mkmv nw ST_INACTIVE 0 M A g ls si false td ta rl false ou ->
+  asilent_ret c (view s) = false ->
+  atrace c ms s = ANotify ST_ACTIVE :: iPl ++ ANotify ST_INACTIVE :: iRl -> all_idle iPl -> all_idle iRl ->
+  let v1 := arun c iPl (aact c (ANotify ST_ACTIVE) (view s)) in
+  HOLD_US + CYCLE_US + J <= a_now v1 - now s ->
+  MULTICLICK_US + CYCLE_US + J <= now (mrun c ms s) - a_now v1 ->
+  pend s <= J -> late (mrun c ms s) <= J -> now (mrun c ms s) - now s < TWO32 ->
+  exists t, ZSt A M g (ht c A t ++ filter famo (outs s)) (filter isloc (outs s)) (view (mrun c ms s)).
+Proof. exact at_hold_thm. Qed.
+Print Assumptions C11_at_hold.
+
+(* non-vacuity: three quick clicks with x2 and x3... here M = 2 (HOLD | x2 enabled): exactly one PRESS_x2 *)
+Definition ex_c : cfgT :=
+  {| boot := 1; typ := TYPE_MONOSTABLE; flags := 0; rel := true; chan := 1;
+     cap := CAP_HOLD + CAP_PRESS_x1 + CAP_PRESS_x2 + CAP_PRESS_x3 + CAP_PRESS_x4 + CAP_PRESS_x5; rst := true |}.
+Definition ex_click : list event := [EIn 1; EAdv 200000; EIn 0; EAdv 200000].
+Definition ex_evs : list event := [EAdv 700000; ETrig (CAP_HOLD + CAP_PRESS_x2)] ++ ex_click ++ ex_click ++ ex_click ++ [EAdv 700000].
+Definition ex_full : list micro := rev (tr (run ex_c 0 ex_evs)).
+(* index of the micro-step that recognises the first press *)
+Fixpoint first_press (c : cfgT) (ms : list micro) (s : st) (i : nat) : nat :=
+  match ms with
+  | [] => i
+  | m :: r => match abs c m s with
+              | ANotify st_ => if (st_ =? ST_ACTIVE) && negb (act s =? 0) then i else first_press c r (mstep c m s) (S i)
+              | _ => first_press c r (mstep c m s) (S i)
+              end
+  end.
+(* cut an abstract trace into clicks *)
+Fixpoint cut (l : list astep) (cur : list astep) (pressed : bool) (x : option (list astep)) : list clk :=
+  match l with
+  | [] => match x with Some p => [{| iP := p; iR := rev cur |}] | None => [] end
+  | ANotify st_ :: r =>
+      if st_ =? ST_ACTIVE then
+        match x with Some p => {| iP := p; iR := rev cur |} :: cut r [] true None | None => cut r [] true None end
+      else cut r [] false (Some (rev cur))
+  | a :: r => cut r (a :: cur) pressed x
+  end.
+Example C11_at_nonvacuous :
+  let i := first_press ex_c ex_full (init ex_c 0) 0 in
+  let s := mrun ex_c (firstn i ex_full) (init ex_c 0) in
+  let ms := skipn i ex_full in
+  let cl := cut (atrace ex_c ms s) [] false None in
+  let A := CAP_HOLD + CAP_PRESS_x2 in
+  gtrace cl = atrace ex_c ms s /\ length cl = 3%nat /\
+  forallb (fun m => negb (is_trig m)) ms = true /\
+  view s = mkmv (now s) ST_INACTIVE 0 2 A RELAY_GPIO (lsc s) (silent s) false (t_due s) (t_adv s) 0 false (outs s) /\
+  asilent_ret ex_c (view s) = false /\ gok ex_c 0 true (view s) cl /\ pend s <= 0 /\ late (mrun ex_c ms s) <= 0 /\
+  filter famo (outs (mrun ex_c ms s)) = [OTrig 1440000 1 CAP_PRESS_x2] /\ filter isloc (outs (mrun ex_c ms s)) = [].
+Proof. vm_compute. repeat split; try reflexivity; intros; try discriminate; try congruence. Qed.
+Print Assumptions C11_at_nonvacuous.
